@@ -541,6 +541,12 @@ CORPUS = [
     ("doman", "1", ["c.fr.3"], {}, 0o022, []),
     ("doman", "7", ["a"], {}, 0o022, []),
     ("doins", "7", ["-r", "dd"], {"insdesttree": "/usr/share/foo", "insoptions": "-m0644", "diroptions": "-m0755"}, 0o022, []),
+    # spellings of directory arguments: "dir/." = the contents, directly into <dest>
+    ("doins", "7", ["-r", "hd/."], {"insdesttree": "/usr/share/foo", "insoptions": "-m0644", "diroptions": "-m0755"}, 0o022, []),
+    ("doins", "7", ["-r", "./hd/./"], {"insdesttree": "/usr/share/foo"}, 0o022, []),
+    ("doins", "7", ["-r", "hd//", "hd/sub/."], {"insdesttree": "/usr/share/foo"}, 0o022, []),
+    ("dodoc", "7", ["-r", "hd/sub/."], {"docdesttree": ""}, 0o022, []),
+    ("dohtml", "6", ["-r", "hd/."], {"docdesttree": ""}, 0o022, []),
     ("dodoc", "7", ["a.txt"], {"docdesttree": ""}, 0o027, []),
     ("dodoc", "3", ["-r", "hd"], {"docdesttree": ""}, 0o022, []),
     ("dosym", "7", ["foo", "/var/tmp"], {}, 0o022, []),
@@ -910,7 +916,9 @@ def gen_install_args(rng, helper, tree_dir, malformed):
         args.append(rng.choice(pool))
     if helper in ("doins", "dodoc", "dohtml") and rng.random() < 0.55:
         d = rng.choice(dirs + [x for x in sub if os.path.isdir(os.path.join(tree_dir, x))] + ["."])
-        d = rng.choice([d, d, d + "/", "./" + d]) if d != "." else d
+        # spellings of a directory argument: the name below <dest> is the last component after dropping
+        # trailing slashes; a final "." component means "the contents"
+        d = rng.choice([d, d, d + "/", "./" + d, d + "/.", d + "/.", "./" + d + "/.", d + "//", d + "/./"]) if d != "." else d
         args.insert(rng.randint(0, len(args)), d)
     elif rng.random() < 0.05:
         args.append(rng.choice(dirs))
